@@ -102,9 +102,11 @@ def run_ef(ctx, n_scenes, n_static):
             mouts = [l for l in o2.split('\n') if l.strip()]
             if len(mouts) != len(ml): ctx.broken.append(('ocaml:C37_ef_drv', 'driver produced %d lines for %d scenes: %s' % (len(mouts), len(ml), e2[-200:])))
             else:
-                dis = 0; first = None; hist = {}; nontriv = 0; faces = 0; mm = 0
+                dis = 0; first = None; hist = {}; nontriv = 0; faces = 0; mm = 0; arst = {}
+                import C37 as _c37
                 for ((nums, info), p), (m, nc, nf, both), mo in zip(zip(cases, parsed), ml, mouts):
                     impl = p[2] + p[3]; model = parse_floats(mo)
+                    bb = p[0][1:]; _c37.ar_predicate(ctx, 'ElasticFoundationForce', lines[cases.index((nums, info))], [bb[1 + 9 * i: 4 + 9 * i] for i in range(int(bb[0]))], p[2], arst)
                     k = OTHER[info['other']] + (':contact' if nc else ':none'); hist[k] = hist.get(k, 0) + 1; faces += nf; mm += both
                     if any(x != 0 for x in p[2]): nontriv += 1
                     scv = max([1.0] + [abs(x) for x in impl if x == x])
@@ -112,6 +114,7 @@ def run_ef(ctx, n_scenes, n_static):
                         dis += 1
                         if first is None: first = (lines[cases.index((nums, info))], impl, model, OTHER[info['other']])
                 ctx.add_cases(len(lines), nontriv, [{'mode': 'EF', 'input': lines[0][:300], 'impl': parsed[0][2] + parsed[0][3], 'model': parse_floats(mouts[0])}])
+                _c37.ar_finish(ctx, 'ElasticFoundationForce', arst)
                 ctx.extra.setdefault('correspondence', {})['EF'] = {'scenes': len(lines), 'disagreements': dis, 'faces': faces, 'mesh_on_mesh_contacts_both_with_parameters': mm, 'by_kind': hist, 'rtol': 1e-9}
                 if first: ctx.broken.append(('correspondence:ElasticFoundationForce', 'rigid body forces / pe differ from the model (%s): impl=%s model=%s input=%s' % (first[3], first[1][-7:], first[2][-7:], first[0][:200])))
     # ---- implementation-only predicate: force = -grad PE (static, no dissipation, no friction)
